@@ -626,6 +626,71 @@ def pinv_expr(case, rec=None):
     return "gz_pinv_R %d%%nat %s %s" % (n, f(case["rho"]), f(case["LIQ"]))
 
 
+# --------------------------------------- correspondence: solver result dispatch
+def gen_dispatch_case(rng):
+    kind = rng.choice(["iter", "iter", "iter", "lsq", "array"])
+    tag = rng.randint(1, 40)
+    if kind == "iter":
+        rest = [rng.choice([0, 0, 1, 2, 5, 200, 1000, -1, -10, -11])]
+        name = rng.choice(["gmres", "lgmres", "bicgstab"])
+    elif kind == "lsq":
+        rest = [rng.choice([0, 1, 2, 7, -1])] + [rng.randint(0, 50) for _ in range(rng.randint(1, 8))]
+        name = "lstsq"
+    else:
+        rest = None
+        name = rng.choice(["spsolve", "gmres", "solve"])
+    return {"kind": kind, "tag": tag, "rest": rest, "name": name,
+            "fmt": rng.choice(["csr", "dia"]), "N": rng.choice([2, 3, 4])}
+
+
+def impl_dispatch(case):
+    """real _data.solve on a CSR/Dia matrix with the scipy routine replaced by
+    a scripted one that returns the prescribed result shape"""
+    import qutip.core.data as _data
+    import scipy.sparse.linalg as splinalg
+    N = case["N"]
+    M = _data.to(_data.CSR if case["fmt"] == "csr" else _data.Dia,
+                 _data.Dense(np.eye(N) + np.diag(np.ones(N - 1), 1)))
+    b = _data.Dense(np.ones((N, 1), dtype=complex))
+    x = np.full(N, complex(case["tag"]))
+    called = {"n": 0}
+
+    def fake(A, rhs, *a, **k):
+        called["n"] += 1
+        if case["rest"] is None:
+            return x.copy()
+        return (x.copy(),) + tuple(case["rest"])
+    attr = {"lstsq": "lsqr", "solve": "spsolve"}.get(case["name"], case["name"])
+    with Patch((splinalg, attr, fake)), warnings.catch_warnings():
+        warnings.simplefilter("ignore")
+        try:
+            out = _data.solve(M, b, case["name"])
+            arr = out.to_array().reshape(-1)
+            if not np.all(arr == arr[0]):
+                return ("Other", "non-constant result")
+            res = ("SRet", int(round(arr[0].real)))
+        except RuntimeError as e:
+            msg = str(e)
+            code = int(msg.rsplit("Error code:", 1)[1].strip()) if "Error code:" in msg else None
+            if "Tolerance was not" in msg:
+                res = ("SRaiseTol", code)
+            elif "Bad input" in msg:
+                res = ("SRaiseBad", code)
+            else:
+                res = ("Other", msg[:80])
+        except Exception as e:
+            res = ("Other", "%s: %s" % (type(e).__name__, str(e)[:80]))
+    if called["n"] != 1:
+        return ("Other", "scripted solver called %d times" % called["n"])
+    return res
+
+
+def dispatch_expr(case):
+    if case["rest"] is None:
+        return "solve_dispatch (SArr %s)" % vlib.cz(case["tag"])
+    return "solve_dispatch (STup %s %s)" % (vlib.cz(case["tag"]), cseq(case["rest"], vlib.cz))
+
+
 # ----------------------------------------------------- correspondence: HEOM
 def impl_heom(case):
     import qutip as qt
@@ -697,6 +762,102 @@ def oracle_configs(quick, rng):
              ("power", None, {"power_eps": 1e-10, "power_tol": 1e-8, "sparse": True, "use_wbm": True}),
              ("propagator", None, {})]
     return cfgs
+
+
+# Iterative solvers that are stopped at their iteration limit: on the unchanged
+# tree every one of these calls raises RuntimeError("Tolerance was not reached");
+# a state that is RETURNED is held to the usual standard (check_result).
+HARD_ITER_CONFIGS = [
+    ("iterative-gmres", None, {"maxiter": 1, "restart": 2}),
+    ("iterative-bicgstab", None, {"maxiter": 1}),
+    ("iterative-lgmres", None, {"maxiter": 1, "inner_m": 2}),
+    ("direct", "gmres", {"maxiter": 1, "restart": 2, "use_rcm": True}),
+    ("direct", "bicgstab", {"maxiter": 1, "use_wbm": True}),
+    ("power-gmres", None, {"maxiter": 1, "restart": 2}),
+    ("power-bicgstab", None, {"maxiter": 1}),
+]
+
+
+def jc_system(N=10):
+    """damped driven Jaynes-Cummings, cavity N x qubit (floats, not exact)"""
+    a1 = np.diag(np.sqrt(np.arange(1, N)), 1)
+    a = np.kron(a1, np.eye(2))
+    sm = np.kron(np.eye(N), np.array([[0, 0], [1, 0]], dtype=float))
+    H = a.conj().T @ a + sm.conj().T @ sm + 0.5 * (a.conj().T @ sm + a @ sm.conj().T) \
+        + 0.3 * (a + a.conj().T)
+    C = [np.sqrt(0.1) * a, np.sqrt(0.05) * sm]
+    return H.astype(complex), [c.astype(complex) for c in C], [N, 2]
+
+
+def oracle_jc(ctx, stats, quick):
+    """a larger composite system on which un-preconditioned Krylov solvers do not
+    converge within maxiter=200: either the call raises or the returned state is
+    a normalised fixed point (relative residual within 100 x the solver's rtol)"""
+    import qutip as qt
+    H, C, dims = jc_system(10 if not quick else 8)
+    L = liouvillian_np(H, C)
+    n = H.shape[0]
+    u, sv, vh = np.linalg.svd(L)
+    v = vh[-1].conj()
+    ref = v.reshape((n, n), order="F")
+    ref = ref / np.trace(ref)
+    if sv[-2] < 1e-8 or np.abs(L @ ref.reshape(-1, order="F")).max() > 1e-9:
+        ctx.log("JC reference not usable; skipped")
+        return
+    Hq = qt.Qobj(H, dims=[dims, dims]).to("csr")
+    Cq = [qt.Qobj(c, dims=[dims, dims]).to("csr") for c in C]
+    scale = np.abs(L).max()
+    cfgs = [("iterative-gmres", None, {"maxiter": 200}),
+            ("iterative-bicgstab", None, {"maxiter": 200}),
+            ("iterative-lgmres", None, {"maxiter": 20}),
+            ("power-bicgstab", None, {"maxiter": 200}),
+            ("iterative-gmres", None, {"use_precond": True}),
+            ("iterative-bicgstab", None, {"use_precond": True, "use_rcm": True}),
+            ("direct", None, {}), ("direct", "spsolve", {"use_wbm": True, "use_rcm": True}),
+            ("power", None, {}), ("eigen", None, {})]
+    for method, solver, kw in cfgs:
+        key = {"method": method, "solver": solver, "opts": sorted(kw.keys()), "system": "jaynes-cummings"}
+        stats["jc_runs"] = stats.get("jc_runs", 0) + 1
+        try:
+            with warnings.catch_warnings():
+                warnings.simplefilter("ignore")
+                r = qt.steadystate(Hq, Cq, method=method, solver=solver, **dict(kw))
+        except Exception as e:
+            itr = method.split("-")[-1] in ITER_SOLVERS
+            if itr and isinstance(e, (RuntimeError, ArithmeticError, Warning)) or \
+                    "Failed to find steady state" in str(e):
+                stats["jc_raised"] = stats.get("jc_raised", 0) + 1      # excusable [NUM]
+                continue
+            ctx.violation("steadystate:" + method.split("-")[0],
+                          dict(key, symptom="raises:" + type(e).__name__),
+                          "steadystate(%s, %s) on the Jaynes-Cummings system raised %s: %s"
+                          % (method, kw, type(e).__name__, str(e)[:100]), {"cfg": [method, solver, kw]})
+            continue
+        M = r.full()
+        rtol = 1e-5
+        bad = []
+        rel = np.abs(L @ M.reshape(-1, order="F")).max() / (scale * max(1e-300, np.abs(M).max()))
+        if rel > 100 * rtol:
+            bad.append("not-fixed-point")
+        if abs(np.trace(M) - 1) > 100 * rtol:
+            bad.append("trace")
+        if np.abs(M - M.conj().T).max() > 100 * rtol:
+            bad.append("not-hermitian")
+        if np.abs(M - ref).max() > 1e-3:
+            bad.append("differs-from-reference")
+        if r.dims != [dims, dims]:
+            bad.append("dims")
+        ctx.count_case(("jc", method, solver, json.dumps(kw, sort_keys=True)))
+        if bad:
+            ctx.violation("steadystate:" + method.split("-")[0], dict(key, symptom=bad[0]),
+                          "steadystate(%s, solver=%s, %s) on a damped driven Jaynes-Cummings system "
+                          "(cavity %d x qubit) RETURNED a state that violates %s: relative residual "
+                          "%.2e, distance to the null vector of L %.2e"
+                          % (method, solver, kw, dims[0], bad, rel, np.abs(M - ref).max()),
+                          {"cfg": [method, solver, kw], "system": "jc_system(%d)" % dims[0],
+                           "symptoms": bad, "relative_residual": float(rel)})
+        else:
+            stats["jc_ok"] = stats.get("jc_ok", 0) + 1
 
 
 def check_result(s, L, rho_ex, r, method, solver, loose=0.0):
@@ -877,6 +1038,8 @@ def oracle_system(ctx, s, cfgs, rng, stats, fmts):
         except Exception as e:
             msg = "%s: %s" % (type(e).__name__, str(e)[:120])
             itr = (solver in ITER_SOLVERS or method.endswith(tuple(ITER_SOLVERS)))
+            if cfg in HARD_ITER_CONFIGS:
+                stats["hard_iterative_raised"] = stats.get("hard_iterative_raised", 0) + 1
             nr = stats.setdefault("no_result_by_cfg", {})
             ck = "%s/%s/%s: %s" % (method, solver, ",".join(sorted(kw)), type(e).__name__)
             nr[ck] = nr.get(ck, 0) + 1
@@ -903,6 +1066,8 @@ def oracle_system(ctx, s, cfgs, rng, stats, fmts):
             continue
         if guard is not None:
             stats["guarded_runs"] = stats.get("guarded_runs", 0) + 1
+        if cfg in HARD_ITER_CONFIGS:
+            stats["hard_iterative_returned"] = stats.get("hard_iterative_returned", 0) + 1
         bad = check_result(s, L, rho_ex, r, method, solver, loose_tol(kw, solver, fmt))
         if guard and bad:
             guard = [g for g in guard if g != "second-call-differs"]   # covered by `bad` below
@@ -1032,6 +1197,16 @@ def targeted_search(ctx, site, what, rng, stats):
                 break
     elif site == "corr:heom.steady_state":
         oracle_heom(ctx, stats, rng, False)
+    elif site == "corr:solve_dispatch":
+        # the flag of a Krylov solver is mishandled: stop solvers at their limit
+        n = 0
+        for _ in range(30):
+            s = gen_system(rng, rng.choice(["generic", "sparse_ladder", "rates"]), [3])
+            if oracle_system(ctx, s, HARD_ITER_CONFIGS, rng, stats, ["csr", "dia"]):
+                n += 1
+            if n >= 3:
+                break
+        oracle_jc(ctx, stats, True)
 
 
 def oracle_mesolve(ctx, s, stats):
@@ -1289,7 +1464,9 @@ CORR_TO_ORACLE = {"corr:steadystate_direct": ("steadystate:direct", "steadystate
                   "corr:steadystate_svd": ("steadystate:svd",),
                   "corr:steadystate_power": ("steadystate:power",),
                   "corr:pseudo_inverse": ("pseudo_inverse",),
-                  "corr:heom.steady_state": ("heom.steady_state",)}
+                  "corr:heom.steady_state": ("heom.steady_state",),
+                  "corr:solve_dispatch": ("steadystate:iterative", "steadystate:direct",
+                                          "steadystate:power")}
 
 
 def run(ctx):
@@ -1393,6 +1570,8 @@ def run(ctx):
             # the first systems (one structurally sparse, one generic, one with an empty
             # first level) see every option combination; later ones a sample
             sub = cfgs if (done < 3 or not quick) else r2.sample(cfgs, 10) + [c for c in cfgs if c[0] == "svd"]
+            if done < 2 or not quick:
+                sub = sub + HARD_ITER_CONFIGS
             if oracle_system(ctx, s, sub, r2, stats, fmts):
                 done += 1
                 stats["systems"] += 1
@@ -1506,6 +1685,32 @@ def run(ctx):
                           % (type(e).__name__, str(e)[:200]), {"case": c})
             hrecs.append(None)
             hexprs.append("gz_heom_L 1%nat 1%nat [::]")
+    ndsp = 40 if quick else 300
+    dcs = [gen_dispatch_case(rng) for _ in range(ndsp)]
+    # the decision table completely: every flag class for every routine
+    for name in ("gmres", "lgmres", "bicgstab"):
+        for c in (0, 1, 200, -1, -10):
+            dcs.append({"kind": "iter", "tag": 9, "rest": [c], "name": name, "fmt": "csr", "N": 3})
+    dimpl = [impl_dispatch(c) for c in dcs]
+    try:
+        dvals = vlib.coq_eval_values("cases_C18_d", HEADER, [dispatch_expr(c) for c in dcs], chunk=400)
+        for c, im, mv in zip(dcs, dimpl, dvals):
+            mp = vlib.parse_coq_value(mv)
+            model = (mp[0], mp[1]) if isinstance(mp, tuple) else mp
+            ctx.count_case(("dispatch", json.dumps(c, sort_keys=True)))
+            ctx.cov["traces_validated_against_impl"] += 1
+            if tuple(model) != tuple(im):
+                corr_violation("corr:solve_dispatch", "%s->%s" % (model[0], im[0]),
+                               "solve_csr_dense/solve_dia_dense: scripted %s returning %s: the model "
+                               "says %s, the implementation %s" % (
+                                   c["name"], "(x, %s)" % c["rest"] if c["rest"] is not None else "an array",
+                                   list(model), list(im)), {"case": c, "model": list(model), "impl": list(im)})
+    except RuntimeError as e:
+        ctx.violation("corr:C18:model-eval", "coqc-dispatch", "model evaluation failed",
+                      {"log": str(e)}, found_input=False)
+    dist["dispatch_kind"] = {}
+    for c in dcs:
+        dist["dispatch_kind"][c["kind"]] = dist["dispatch_kind"].get(c["kind"], 0) + 1
     try:
         vals = vlib.coq_eval_values("cases_C18", HEADER,
                                     exprs + nexprs + lexprs + pexprs + hexprs, chunk=12)
@@ -1652,6 +1857,7 @@ def run(ctx):
     witness_eigen_sparse(ctx)
     oracle_all(5 if quick else 40, rng)
     oracle_heom(ctx, stats, rng, quick)
+    oracle_jc(ctx, stats, quick)
     flush_deferred()
     ctx.cov["oracle_stats"] = stats
     ctx.sample({"oracle_stats": dict(stats)})
